@@ -105,7 +105,7 @@ def _fp_probes(repo, rep, fp):
     jobs.append(("shift_left32", ref_shl(32), [(a, k) for a in g32 for k in (0, 1, 2, 5, 15, 30, 31)], "gemmlowp ShiftLeft<int32> (saturating)"))
     jobs.append(("shift_left16", ref_shl(16), [(a, k) for a in g16 for k in (0, 1, 2, 7, 14, 15)], "gemmlowp ShiftLeft<int16> (saturating)"))
     jobs.append(("saturating_rounding_multiply_by_pot", ref_srmbp, [(a, k) for a in g32 for k in (0, 1, 2, 5, 15, 30)], "gemmlowp SaturatingRoundingMultiplyByPOT (positive exponent)"))
-    jobs.append(("downscale_multiplier_int32_to_int16", ref_down, [(a,) for a in g32 + [(1 << 31) - 1 - (1 << 15) - 1, (1 << 31) - 1 - (1 << 15), (1 << 31) - (1 << 15), 65535, 65536, 98303, 98304, -32768, -32769]],
+    jobs.append(("downscale_multiplier_int32_to_int16", ref_down, [(a,) for a in g32 + [(1 << 31) - 1 - (1 << 15) - 1, (1 << 31) - 1 - (1 << 15), (1 << 31) - (1 << 15), 65535, 65536, 98303, 98304, -32768, -32769, 0x28000, 0x48000, 0x27FFF, 0x28001, -0x18000, -0x28000, 0x7FFE8000, 0x12348000, 0x12358000]],
                  "TFLite DownScaleInt32ToInt16Multiplier"))
     jobs.append(("multiply_by_quantized_multiplier", ref_mbqm, [(x, sc_, sh_) for x in (0, 1, -1, 5, -5, 127, -128, 255, 32767, -32768, 100000, -100000) for sc_ in (1 << 30, (1 << 30) + 12345, (1 << 31) - 1, 1518500250)
                                                                   for sh_ in (29, 30, 31, 32, 33, 38, 45)], "TFLite MultiplyByQuantizedMultiplier (shift = 31 - Vela shift)"))
@@ -358,6 +358,7 @@ def run(repo, rep):
     rep.clause("C19-e", "the function a table is generated from is the real function its operator names (sigmoid, tanh, exp, sqrt): library function by name, "
                "or a Vela helper interpreted on probe arguments against the real function (absolute error <= 1e-9, far below half an output step)")
     _lut_functions(repo, rep)
+    _boundaries(repo, rep)
     rep.clause("C19-f", "tables share storage only when they are equal: the equivalence id of a LUT tensor is keyed by the complete value sequence (an injective key, no hash / digest / aggregate)")
     lu = repo.mod("lut")
     ct = lu.func("create_lut_tensor")
@@ -418,3 +419,47 @@ def run(repo, rep):
     from . import c09
 
     rep.run_borrowed(c09, {"C09-b": "C19-d"}, repo)
+
+
+def _boundaries(repo, rep):
+    """(e) the two places where a table generator replaces the real function by a constant: softmax's exp table below diff_min
+    (the reference keeps the entry at diff_min itself), and log(0) (the reference result is -inf, i.e. the lowest output code for
+    every output quantisation: the stand-in must be the smallest positive double, whose log saturates whatever the scale)."""
+    import sys as _sys
+
+    from ..exprnorm import comparison
+
+    sm = repo.mod("softmax").func("SoftMax.generate_exp_table")
+    site = "ethosu/vela/softmax.py:SoftMax.generate_exp_table"
+    tests = [i_ for i_ in ast.walk(sm) if isinstance(i_, ast.If) and "diff_min" in str(norm(i_.test))]
+    if len(tests) != 1:
+        raise AnalysisError("generate_exp_table: diff_min test not found")
+    t = tests[0]
+    exp_in_body = any(isinstance(c_, ast.Call) and (call_name(c_) or "").endswith("exp_on_negative_values") for st in t.body for c_ in ast.walk(st))
+    want = comparison(ast.parse("input_diff >= diff_min" if exp_in_body else "input_diff < diff_min", mode="eval").body)
+    rep.check(comparison(t.test) == want, "C19-e", site, "the exp entry is computed for every input_diff >= diff_min (boundary included, as in the reference kernel); only smaller differences give 0",
+              f"test is `{norm(t.test)}`: the entry at input_diff == diff_min is forced to 0 where the reference exp is non-zero")
+    go = repo.mod("tflite_graph_optimiser")
+    cl = go.func("convert_ops_to_lut")
+    logs = [f_ for f_ in ast.walk(cl) if isinstance(f_, ast.FunctionDef) and f_.name == "log"]
+    if len(logs) != 1:
+        raise AnalysisError("convert_ops_to_lut: inner log() not found")
+    known = {"sys.float_info.min": _sys.float_info.min, "sys.float_info.epsilon": _sys.float_info.epsilon, "np.finfo(float).tiny": _sys.float_info.min, "np.finfo(np.float64).tiny": _sys.float_info.min,
+             "np.finfo(float).eps": _sys.float_info.epsilon, "np.finfo(np.float64).eps": _sys.float_info.epsilon, "np.finfo(np.float32).tiny": 1.1754943508222875e-38, "np.finfo(np.float32).eps": 1.1920928955078125e-07}
+    zs = [i_ for i_ in ast.walk(logs[0]) if isinstance(i_, ast.If) and str(norm(i_.test)).replace("(", "").replace(")", "") in ("value == 0", "0 == value", "value == 0.0", "value <= 0", "value <= 0.0")]
+    site2 = "ethosu/vela/tflite_graph_optimiser.py:convert_ops_to_lut.log"
+    if len(zs) != 1:
+        raise AnalysisError("convert_ops_to_lut.log: zero test not found")
+    b0 = zs[0].body[0]
+    if isinstance(b0, ast.Return):
+        txt = str(norm(b0.value))
+        rep.check(txt in ("-math.inf", "float('-inf')", "-np.inf", "-numpy.inf"), "C19-e", site2, "log(0) is -inf (saturates to the lowest output code)", f"returns `{txt}`")
+    else:
+        if not (isinstance(b0, ast.Assign) and str(norm(b0.targets[0])) == "value"):
+            raise AnalysisError("convert_ops_to_lut.log: zero branch not recognised")
+        txt = str(norm(b0.value))
+        val = known.get(txt, b0.value.value if isinstance(b0.value, ast.Constant) and isinstance(b0.value.value, float) else None)
+        if val is None:
+            raise AnalysisError(f"convert_ops_to_lut.log: stand-in `{txt}` for log(0) is not a constant this check can evaluate")
+        rep.check(0 < val <= _sys.float_info.min, "C19-e", site2, "the stand-in for log(0) is the smallest positive (normal) double: log = -708 saturates for every output quantisation",
+                  f"stand-in `{txt}` = {val!r}: log = {math.log(val):.1f} does not reach the lowest output code when the output scale is coarse (e.g. -36/0.5 + 90), where the reference gives -128")
